@@ -95,6 +95,7 @@ type Axiom struct {
 	Induct  string
 	Params  []specParam
 	Uses    []string // spec function names that trigger inclusion
+	Props   []string // lemma: properties under which it is proved
 	File    string
 	Line    int
 }
@@ -474,6 +475,10 @@ func (w *World) parseBlocks(ls []rawLine, pkgPath string) error {
 				}
 			case "induction":
 				curAx.Induct = rest
+			case "property":
+				for _, p := range strings.Split(rest, ",") {
+					curAx.Props = append(curAx.Props, strings.TrimSpace(p))
+				}
 			default:
 				return fail2("unknown axiom clause %q", word)
 			}
